@@ -66,10 +66,11 @@ func (d *Decrypter) processMessage(device *model.Device, decoded server.LoRaMess
 	if decoded.Payload.MACPayload.FHDR.FCnt >= device.FCntUp {
 		// The check above was made on a copy of the device row; the store repeats it
 		// together with the write, so that a copy of this frame handled at the same time
-		// (or a later frame that overtook this one) cannot be accepted as well.
+		// (or a later frame that overtook this one) cannot be accepted as well, and a
+		// frame of the previous session cannot move the counter of a new one.
 		fcnt := decoded.Payload.MACPayload.FHDR.FCnt
 		device.FCntUp = fcnt + 1
-		err := d.context.Storage.AdvanceFCntUp(device.DeviceEUI, fcnt, device.FCntUp, device.KeyWarning)
+		err := d.context.Storage.AdvanceFCntUp(device.DeviceEUI, device.NwkSKey, fcnt, device.FCntUp, device.KeyWarning)
 		if err == storage.ErrNotFound && !device.RelaxedCounter {
 			lg.Info("Frame counter %d for device %s has been used already. Ignoring message.", fcnt, device.DeviceEUI)
 			return
